@@ -477,7 +477,7 @@ func (ex *Exec) visit(fr *Frame, instr ssa.Instruction) continuation {
 		n := ex.concreteInt(fr.get(in.Len), "make len")
 		c := ex.concreteInt(fr.get(in.Cap), "make cap")
 		if n < 0 || c < n || c > 1<<24 {
-			ex.mustHold(ex.ts.False(), "makeslice: len out of range")
+			ex.mustHold(ex.ts.False(), fmt.Sprintf("makeslice: len out of range (len %d cap %d)", n, c))
 		}
 		elt := in.Type().Underlying().(*types.Slice).Elem()
 		a := make([]Value, c)
